@@ -86,7 +86,13 @@ def rule_chkeff(ctx: Ctx) -> RuleResult:
         g = ctx.p.function(q)
         data_p = g.params[2] if len(g.params) > 2 else "data"
         for r in [n for n in own_nodes(g.node) if isinstance(n, ast.Return) and isinstance(n.value, ast.Constant) and n.value.value is False]:
-            fs = facts_at(ctx, g, r)
+            # the innermost existence test decides
+            last = None
+            for t_, lab_ in ctx.ef._dominating_tests(cfg_of(g.node), r):
+                if ".exists()" in norm(t_):
+                    last = (t_, lab_)
+            from ..shape import _atomise, _norm_fact
+            fs = {(_norm_fact(e_), tr_) for e_, tr_ in _atomise(last[0], last[1] == "true")} if last else set()
             if any(t.endswith(".exists()") and truth for t, truth in fs) and not any(t.endswith(".exists()") and not truth for t, truth in fs):
                 res.violation([q, "reports failure on success"], f"{g.short} answers False when the path exists (and goes on when it does not): a "
                                                                  f"created entity is reported as failed and its data is not written", g.relpath, r.lineno)
